@@ -129,6 +129,9 @@ def check_threading(ctx, fi, init_param: str, allow_fresh: bool):
                 d = Defs(fi.node)
                 sized = "circuit.n_qubits" in d.atoms(v)
                 ctx.check(has_one and sized, R1, construct, "fresh |0..0> of 2**circuit.n_qubits amplitudes", f"fresh initial state is not |0..0> of the circuit's width (index-0 amplitude set: {has_one}, sized by circuit.n_qubits: {sized})", where)
+            elif isinstance(v, ast.Call) and (dotted(v.func) or "").split(".")[-1] == "reduce" and len(v.args) == 3 and not v.keywords and isinstance(v.args[0], ast.Lambda) and len(v.args[0].args.args) == 2 and isinstance(v.args[2], ast.Name) and v.args[2].id == acc and isinstance(v.args[0].body, ast.Call) and isinstance(v.args[0].body.func, ast.Attribute) and v.args[0].body.func.attr == "apply" and norm(v.args[0].body.func.value) == v.args[0].args.args[1].arg and [norm(a) for a in v.args[0].body.args] == [v.args[0].args.args[0].arg] and count_reversals(v.args[1]) == 0:
+                # acc = reduce(lambda vec, op: op.apply(vec), <operations in order>, acc): the same left fold as the loop, started from acc
+                ctx.ok(R1, construct, "left fold of op.apply over the operations in order, started from the accumulator", where)
             else:
                 ctx.violation(R1, construct, f"accumulator '{acc}' is overwritten by {short(v)}, which is neither a producer result nor the initial state", where)
     # iteration order: loops that contain producers iterate forward
